@@ -24,6 +24,9 @@ HasNegAxis(c) == c.axis \notin {AxisDefault, AxisNone} /\ \E i \in 1..Len(c.axis
 \* NumpyTensor.__array_ufunc__ (c.kind = "tensor", also the inner call of the discretised element)
 TensorImpl(c, outkind) ==
   IF c.method = "at" THEN "none"
+  \* out=<discretised element>: NumpyTensor returns NotImplemented, NumPy hands over to the element's class
+  ELSE IF outkind = "discr" /\ c.method = "reduce" /\ c.keepdims THEN "refused"
+  ELSE IF outkind = "discr" /\ c.method \in {"reduceat", "outer"} THEN "refused"
   ELSE IF outkind # "none" THEN
          \* `with writable_array(out) as out_arr:` ... finally `obj[:] = arr` : IndexError for a 0-d array
          (IF ExpShape(c) = <<>> /\ ~FixedZeroDimOut THEN "raises" ELSE IF outkind = "element" THEN "tensor" ELSE outkind)
